@@ -9,6 +9,7 @@ import (
 	"time"
 
 	"github.com/scrapli/scrapligo/util"
+	"github.com/scrapli/scrapligo/util/simhook"
 )
 
 const (
@@ -160,6 +161,8 @@ func (c *Channel) AuthenticateSSH(p, pp []byte) ([]byte, error) {
 	defer cancel()
 
 	go func() {
+		simhook.Enter("op.authssh")
+
 		defer close(cr)
 
 		cr <- c.authenticateSSH(ctx, p, pp)
@@ -271,6 +274,8 @@ func (c *Channel) AuthenticateTelnet(u, p []byte) ([]byte, error) {
 	defer cancel()
 
 	go func() {
+		simhook.Enter("op.authtelnet")
+
 		cr <- c.authenticateTelnet(ctx, u, p)
 	}()
 
